@@ -21,13 +21,16 @@ class Result:
         self.outcomes = set()
 
 
-def explore(initial, enabled, replay, max_depth, max_violations=5, isolate=True):
+def explore(initial, enabled, replay, max_depth, max_violations=5, isolate=True, prefix=None):
     """
     initial()               -> model state for the empty history (model only, cheap)
     enabled(model_state)    -> list of events (JSON-able) enabled in that model state
     replay(history)         -> (model_state, key, problems) ; replays the whole history on FRESH real
                                objects with the reference model in lockstep and evaluates the invariant
                                after every step; problems = list of (message, sig) found at the LAST step
+    prefix                  -> optional history the search starts from (shards one search over several workers: the
+                               union of the shards for every enabled first event is the full search; states reachable
+                               through several first events are then counted once per shard)
     """
     res = Result()
 
@@ -37,12 +40,16 @@ def explore(initial, enabled, replay, max_depth, max_violations=5, isolate=True)
             return contextvars.copy_context().run(replay, hist)
         return replay(hist)
 
-    m0, k0, p0 = run([])
+    prefix = list(prefix or [])
+    m0, k0, p0 = run(prefix)
     for msg, sig in p0:
-        res.violations.append(([], msg, sig))
+        res.violations.append((prefix, msg, sig))
     seen = {k0}
-    frontier = deque([([], m0)])
+    frontier = deque([(prefix, m0)] if (not p0 and len(prefix) < max_depth) else [])
     res.states = 1
+    for ev in prefix:
+        res.events_used.add(str(ev if not isinstance(ev, dict) else ev.get("e", ev)))
+    res.max_depth = len(prefix)
     while frontier:
         hist, mstate = frontier.popleft()
         for ev in enabled(mstate):
